@@ -16,6 +16,7 @@ pub struct E57Writer<T: Read + Write + Seek> {
     extensions: Vec<Extension>,
     images: Vec<Image>,
     root: Root,
+    finalized: bool,
 }
 
 impl<T: Write + Read + Seek> E57Writer<T> {
@@ -47,6 +48,7 @@ impl<T: Write + Read + Seek> E57Writer<T> {
             images: Vec::new(),
             extensions: Vec::new(),
             root,
+            finalized: false,
         })
     }
 
@@ -66,6 +68,7 @@ impl<T: Write + Read + Seek> E57Writer<T> {
         guid: &str,
         prototype: Vec<Record>,
     ) -> Result<PointCloudWriter<T>> {
+        self.check_not_finalized()?;
         Extension::validate_prototype(&prototype, &self.extensions)?;
         PointCloudWriter::new(&mut self.writer, &mut self.pointclouds, guid, prototype)
     }
@@ -73,11 +76,13 @@ impl<T: Write + Read + Seek> E57Writer<T> {
     /// Adds a new binary data section to the E57 file.
     /// This feature is only required for custom data and extensions!
     pub fn add_blob(&mut self, reader: &mut dyn Read) -> Result<Blob> {
+        self.check_not_finalized()?;
         Blob::write(&mut self.writer, reader)
     }
 
     /// Creates a new image writer for adding an image to the E57 file.
     pub fn add_image(&mut self, guid: &str) -> Result<ImageWriter<T>> {
+        self.check_not_finalized()?;
         ImageWriter::new(&mut self.writer, &mut self.images, guid)
     }
 
@@ -128,6 +133,7 @@ impl<T: Write + Read + Seek> E57Writer<T> {
         &mut self,
         transformer: impl Fn(String) -> Result<String>,
     ) -> Result<()> {
+        self.check_not_finalized()?;
         let xml = serialize_root(
             &self.root,
             &self.pointclouds,
@@ -154,7 +160,18 @@ impl<T: Write + Read + Seek> E57Writer<T> {
         header.write(&mut self.writer)?;
         self.writer
             .flush()
-            .write_err("Failed to flush writer at the end")
+            .write_err("Failed to flush writer at the end")?;
+        self.finalized = true;
+        Ok(())
+    }
+
+    /// After the XML and the final header were written nothing can be added anymore,
+    /// it would overwrite the existing sections at the start of the file.
+    fn check_not_finalized(&self) -> Result<()> {
+        if self.finalized {
+            Error::invalid("The E57 file was already finalized")?
+        }
+        Ok(())
     }
 }
 
